@@ -614,6 +614,15 @@ func runWorldModeX(cfg *runCfg, name string, kf1 bool, live bool) error {
 			} else {
 				rep.count("live:skipped: " + why)
 			}
+		} else if live && i == 2 {
+			w = directedWorld(r, rep, cfg.seed*100000+2, 3)
+			w.bareBlockVoteScript() // a Byzantine vote without proof but with a block reaches the leader of view 1 before the election
+			rep.count("world:directed-bare-block-vote-prefix")
+			if why, ok := w.stabilise(); ok {
+				rep.count("live:stabilised-worlds")
+			} else {
+				rep.count("live:skipped: " + why)
+			}
 		} else if live {
 			w.run()
 			if why, ok := w.stabilise(); ok {
